@@ -473,5 +473,42 @@ def collect (q : Q K) : Nat → Nat → List Nat
       if nd.leaf then nd.children.toList.filter (· != MAXN)
       else nd.children.toList.flatMap fun c => if c == MAXN then [] else collect q fuel c
 
+/-! ## `Qbvh::intersect_aabb` (traversal.rs) -/
+
+/-- one lane of `SimdAabb::intersects` (dim3) -/
+def boxIntersects (a b : Aabb3 K) : Bool :=
+  decide (a.mins.x ≤ b.maxs.x) && decide (b.mins.x ≤ a.maxs.x) &&
+  decide (a.mins.y ≤ b.maxs.y) && decide (b.mins.y ≤ a.maxs.y) &&
+  decide (a.mins.z ≤ b.maxs.z) && decide (b.mins.z ≤ a.maxs.z)
+
+/-- the `for ii in 0..SIMD_WIDTH` body for one popped node: new stack (head = top) and output (reversed) -/
+def intersectLanes (q : Q K) (b : Aabb3 K) (nd : Node K) (stack out : List Nat) : List Nat × List Nat :=
+  [0, 1, 2, 3].foldl (fun (so : List Nat × List Nat) ii =>
+    match nd.boxes[ii]?, nd.children[ii]? with
+    | some bx, some c =>
+      if boxIntersects bx b then
+        if nd.leaf then
+          match q.proxies[c]? with
+          | some pr => (so.1, pr.data :: so.2)
+          | none => so
+        else if c ≤ q.nodes.size then (c :: so.1, so.2) else so
+      else so
+    | _, _ => so) (stack, out)
+
+/-- `Qbvh::intersect_aabb`: outer `none` = index panic (`self.nodes[inode]`) or fuel exhausted;
+result = `out` in push order -/
+def intersectLoop (q : Q K) (b : Aabb3 K) : Nat → List Nat → List Nat → Option (List Nat)
+  | _, [], out => some out.reverse
+  | 0, _ :: _, _ => none
+  | fuel + 1, inode :: stack, out =>
+    match q.nodes[inode]? with
+    | none => none
+    | some nd =>
+      let r := intersectLanes q b nd stack out
+      intersectLoop q b fuel r.1 r.2
+
+def intersectAabb (q : Q K) (b : Aabb3 K) : Option (List Nat) :=
+  if q.nodes.size = 0 then some [] else intersectLoop q b (4 * q.nodes.size + 8) [0] []
+
 end Qbvh
 end Model
